@@ -124,11 +124,6 @@ def tDist (o : Ops K R) (rt : Roots R) : TW R → Expo R → Nat → (Nat → K)
       rt.rpow c (1 / p) * vecNorm rt (.gen p) n (fun i => o.abs (x i - y i))
   | .arr w, p, n, x, y => tNorm o rt (.arr w) p n (fun i => x i - y i)
 
-/-- `tspace.is_weighted`: not (constant weighting with `const == 1.0`). -/
-def TW.isWeighted (isOne : R → Bool) : TW R → Bool
-  | .const c => !(isOne c)
-  | .arr _ => true
-
 end tensor
 
 /-! ### discretized spaces (`discr_space.py`, `partition.py`, `numerics.py`) -/
@@ -162,10 +157,10 @@ def bfac (close1 : R → Bool) (g : R → R) : List (Axis R) → Nat → R
 def allClose1 (close1 : R → Bool) (axes : List (Axis R)) : Bool :=
   axes.all (fun a => close1 a.fl && close1 a.fr)
 
-/-- `DiscretizedSpace.is_uniformly_weighted`:
-`allclose(fracs, 1) or exponent == inf or not tspace.is_weighted`. -/
-def uniformlyWeighted (close1 : R → Bool) (axes : List (Axis R)) (w : TW R) (p : Expo R) : Bool :=
-  allClose1 close1 axes || p.isInf || !(w.isWeighted close1)
+/-- `DiscretizedSpace.is_uniformly_weighted`: `allclose(fracs, 1) or exponent == inf`
+(independent of the tensor-space weighting). -/
+def uniformlyWeighted (close1 : R → Bool) (axes : List (Axis R)) (_w : TW R) (p : Expo R) : Bool :=
+  allClose1 close1 axes || p.isInf
 
 /-- `if self.is_uniform and not self.is_uniformly_weighted` -/
 def scalesBoundary (close1 : R → Bool) (unif : Bool) (axes : List (Axis R)) (w : TW R)
@@ -247,17 +242,19 @@ def pInner (o : Ops K R) : PW R → Nat → (Nat → K) → K
   | .const c, m, a => o.rK c * sumTo m a
   | .arr w, m, a => sumTo m (fun k => a k * o.rK (w k))
 
-/-- `ProductSpace…Weighting.norm` from the component self inner products `a k` (used for
-exponent 2) and the component norms `nr k` (other exponents). -/
-def pNorm (o : Ops K R) (rt : Roots R) : PW R → Expo R → Nat → (Nat → K) → (Nat → R) → R
-  | w, .two, m, a, _ => rt.sqrt (o.re (pInner o w m a))
-  | .const c, .one, m, _, nr => c * vecNorm rt .one m (fun k => rt.rabs (nr k))
-  | .const c, .inf, m, _, nr => c * vecNorm rt .inf m (fun k => rt.rabs (nr k))
-  | .const c, .gen p, m, _, nr =>
+/-- `ProductSpace…Weighting.norm` from the component norms `nr k`, every exponent (also 2):
+`const * ‖nr‖ₚ` for `p ∈ {1, ∞}`, `const ** (1/p) * ‖nr‖ₚ` otherwise; array weights are
+multiplied into the component norms (`w` for `p ∈ {1, ∞}`, `w ** (1/p)` otherwise). -/
+def pNorm (rt : Roots R) : PW R → Expo R → Nat → (Nat → R) → R
+  | .const c, .one, m, nr => c * vecNorm rt .one m (fun k => rt.rabs (nr k))
+  | .const c, .inf, m, nr => c * vecNorm rt .inf m (fun k => rt.rabs (nr k))
+  | .const c, .two, m, nr => rt.rpow c (1 / 2) * vecNorm rt .two m (fun k => rt.rabs (nr k))
+  | .const c, .gen p, m, nr =>
       rt.rpow c (1 / p) * vecNorm rt (.gen p) m (fun k => rt.rabs (nr k))
-  | .arr w, .one, m, _, nr => vecNorm rt .one m (fun k => rt.rabs (nr k * w k))
-  | .arr w, .inf, m, _, nr => vecNorm rt .inf m (fun k => rt.rabs (nr k * w k))
-  | .arr w, .gen p, m, _, nr =>
+  | .arr w, .one, m, nr => vecNorm rt .one m (fun k => rt.rabs (nr k * w k))
+  | .arr w, .inf, m, nr => vecNorm rt .inf m (fun k => rt.rabs (nr k * w k))
+  | .arr w, .two, m, nr => vecNorm rt .two m (fun k => rt.rabs (nr k * rt.rpow (w k) (1 / 2)))
+  | .arr w, .gen p, m, nr =>
       vecNorm rt (.gen p) m (fun k => rt.rabs (nr k * rt.rpow (w k) (1 / p)))
 
 /-- `ProductSpaceConstWeighting.dist` from `dn k = (x1ₖ - x2ₖ).norm()`. -/
@@ -321,21 +318,6 @@ def Space.hasInner : Space R → Bool
   | .discr _ _ _ p => p.isTwo
   | .prod m _ p comp => p.isTwo && (List.range m).all (fun k => (comp k).hasInner)
 
-/-- `space.norm(x)` is defined unless a product space with exponent 2 (whose norm is computed as
-`sqrt(inner(x, x))`) has a component without inner product (the code raises
-`NotImplementedError` there). -/
-def Space.hasNorm : Space R → Bool
-  | .tens _ _ _ => true
-  | .discr _ _ _ _ => true
-  | .prod m _ p comp =>
-      (List.range m).all (fun k => (comp k).hasNorm) &&
-        (!p.isTwo || (List.range m).all (fun k => (comp k).hasInner))
-
-/-- `space.dist(x, y)`: the constant product weighting only needs the component norms. -/
-def Space.hasDist : Space R → Bool
-  | .prod m (.const _) _ comp => (List.range m).all (fun k => (comp k).hasNorm)
-  | s => s.hasNorm
-
 /-- `space.inner(x, y)`. -/
 def Space.inner (o : Ops K R) (close1 : R → Bool) : Space R → El K → El K → K
   | .tens n w _, .vec x, .vec y => tInner o w n x y
@@ -349,8 +331,7 @@ def Space.norm (o : Ops K R) (rt : Roots R) : Space R → El K → R
   | .tens n w p, .vec x => tNorm o rt w p n x
   | .discr u axes w p, .vec x => dNorm o rt u axes w p x
   | .prod m w p comp, .tup xs =>
-      pNorm o rt w p m (fun k => Space.inner o rt.close1 (comp k) (xs k) (xs k))
-        (fun k => Space.norm o rt (comp k) (xs k))
+      pNorm rt w p m (fun k => Space.norm o rt (comp k) (xs k))
   | _, _ => 0
 
 /-- `space.dist(x, y)`. -/
